@@ -185,6 +185,17 @@ def run(ctx):
                                     "returned", shape_free=True)
             else:
                 o.undecided(f"`{es}` is not the build callback's result itself (`{txt(bval)[:60] if bval is not None else '?'}`)", fn, bst)
+            # ... and is not FILTERED afterwards either: `es = [e for e in es if ..]` / `es = list(filter(.., es))` drops edges while the names
+            # (one per edge the callback returned) stay complete
+            for rb in [n for n in ast.walk(loop) if isinstance(n, ast.Assign) and len(n.targets) == 1 and txt(n.targets[0]) == es and n is not bst]:
+                v_ = rb.value
+                while isinstance(v_, ast.Call) and txt(v_.func) in ("list", "tuple") and len(v_.args) == 1:
+                    v_ = v_.args[0]
+                filt = (isinstance(v_, (ast.ListComp, ast.GeneratorExp)) and len(v_.generators) == 1 and txt(v_.generators[0].iter) == es and v_.generators[0].ifs
+                        and txt(v_.elt) == txt(v_.generators[0].target)) or (isinstance(v_, ast.Call) and txt(v_.func) == "filter" and len(v_.args) == 2 and txt(v_.args[1]) == es)
+                if filt:
+                    o.violated(fn, rb, f"`{txt(rb)[:70]}` drops some of the edges the build callback returned before they are recorded, while the naming callback still yields one "
+                                       "name per returned edge: the edge column and the name column of that motif differ in length", shape_free=True)
             L = Lengths(g, es, bc, None)
             paths = _paths(loop.body)
             # all column growth must be at path level (not in deeper loops)
@@ -396,6 +407,33 @@ def run(ctx):
                     o.undecided(f"origin of the build argument `{a.id}` not recognised", fn, bc)
             else:
                 o.undecided(f"build argument `{txt(a)}` not recognised", fn, bc)
+
+    # ------------------------------------------------------------------ C02.2 (fast generator: no re-pack on the pinned tree)
+    with ctx.obligation("C02.2", "the fast generator stores what the builder returns; a re-pack, if any, looks at an ELEMENT") as o:
+        gf = gens[gen_common.GENERATORS[0]]
+        n_wrap = 0
+        for st_ in [n for n in astx.walk_fn(gf.fn.node) if isinstance(n, ast.Assign) and len(n.targets) == 1 and isinstance(n.targets[0], ast.Name)
+                    and isinstance(n.value, (ast.List, ast.Tuple)) and len(n.value.elts) == 1 and txt(n.value.elts[0]) == txt(n.targets[0])]:
+            es_ = txt(st_.targets[0])
+            if not any(isinstance(d_.value, ast.Call) and "_build_functions" in txt(d_.value.func) for d_ in gf.sc.assigns.get(es_, []) if getattr(d_, "value", None) is not None):
+                continue
+            n_wrap += 1
+            ifs_ = [a_ for a_ in gf.par.ancestors(st_) if isinstance(a_, ast.If)]
+            tests_ = " and ".join(txt(i_.test) for i_ in ifs_)
+            rtests_ = [gf.sc.resolve(i_.test) for i_ in ifs_]
+            elem = any(isinstance(x_, ast.Call) and txt(x_.func) == "isinstance" and x_.args and txt(x_.args[0]) in (f"{es_}[0]", f"{es_}[-1]", f"{es_}[1]") for t_ in rtests_ for x_ in ast.walk(t_))
+            opaque_test = any(isinstance(t_, ast.Name) or any(isinstance(x_, ast.Call) and txt(x_.func) not in ("isinstance", "len", "type") for x_ in ast.walk(t_)) for t_ in rtests_)
+            if ifs_ and not elem and opaque_test:
+                o.undecided(f"re-pack `{txt(st_)}` under `{tests_[:80]}` (test not resolved)", gf.fn, st_)
+            elif not ifs_:
+                o.violated(gf.fn, st_, f"`{txt(st_)}` wraps every motif's edges as ONE entry", shape_free=True)
+            elif elem:
+                o.undecided(f"re-pack `{txt(st_)}` under `{tests_[:80]}`", gf.fn, st_)
+            else:
+                o.violated(gf.fn, st_, f"`{txt(st_)}` under `{tests_[:80]}`: the test looks at the container only - a builder that returns exactly two edges as a tuple "
+                                       "(a wedge, a two-edge path) satisfies it too and its two edges are stored as ONE malformed entry with one name and one id", shape_free=True)
+        if not n_wrap:
+            o.holds(gf.fn, gf.fn.node, "the fast generator never re-packs the builder's result")
 
     # ------------------------------------------------------------------ C02.2
     with ctx.obligation("C02.2", "the re-pack branch can only be taken by a bare edge, never by a list of two edges") as o:
